@@ -900,3 +900,42 @@ func privateBuilt(v ssa.Value, R *BusRoles, d int, seen map[ssa.Value]bool) bool
 	}
 	return false
 }
+
+// checkPublishKeyConsistency: a publish looks its registrations up under the dynamic type
+// of the published value; every other registry access the publish makes (once-handler
+// retirement, in PublishContext itself or in a helper it calls) must use that same kind
+// of key. A helper that re-derives the key from the static type parameter misses the
+// entry whenever T is an interface type (the spent Once registration is never removed).
+func checkPublishKeyConsistency(c *Ctx, p *Prog, R *BusRoles, rule string) {
+	reach := map[*ssa.Function]bool{}
+	for _, f := range reachFuncs(p, R.PublishFn, PkgBus) {
+		reach[f] = true
+	}
+	origins := map[string][]regAccess{}
+	n := 0
+	for _, a := range registryAccesses(p, R) {
+		if a.SKind != "fn" || !(a.Fn == R.PublishFn || (reach[a.Home] && a.Fn == a.Home)) {
+			continue
+		}
+		n++
+		o := typeKeyOrigin(a.SKey)
+		if i := strings.Index(o, ":"); i >= 0 {
+			o = o[:i]
+		}
+		origins[o] = append(origins[o], a)
+	}
+	bad := false
+	for o, as := range origins {
+		if o == "dynamic" {
+			continue
+		}
+		for _, a := range as {
+			bad = true
+			c.Violate(rule, "PublishContext/registry-key-consistency/"+FuncDisplay(a.Home)+"/"+a.Kind, p.Pos(a.HomeIn.Pos()), fmt.Sprintf("a registry %s made on behalf of a publish is keyed by a %q type key, while the publish looks its registrations up under the dynamic type of the published value: for an interface-typed T the two differ and the access misses the entry", a.Kind, o), nil)
+		}
+	}
+	if !bad && n > 0 {
+		c.Discharge(rule, "PublishContext/registry-key-consistency", p.Pos(R.PublishFn.Pos()), fmt.Sprintf("all %d keyed registry accesses made by a publish use the dynamic type of the published value", n))
+	}
+	c.Floor(rule, "keyed registry accesses of a publish", n, 2)
+}
